@@ -112,6 +112,9 @@ fn same_tolerant(a: &Canon, b: &Canon) -> bool {
     if a.0 != 0 {
         return a.2 == b.2;
     }
+    // Accumulation order differs with the number of worker threads and with prepacked weights; after
+    // cancellation the error of a long dot product is small relative to the *tensor*, not to the element.
+    let scale = a.2.iter().chain(&b.2).map(|x| f32::from_bits(*x)).filter(|x| x.is_finite()).fold(0f32, |m, x| m.max(x.abs()));
     a.2.iter().zip(&b.2).all(|(x, y)| {
         let (x, y) = (f32::from_bits(*x), f32::from_bits(*y));
         if x.is_nan() || y.is_nan() {
@@ -120,7 +123,7 @@ fn same_tolerant(a: &Canon, b: &Canon) -> bool {
         if x.is_infinite() || y.is_infinite() {
             return x == y;
         }
-        (x - y).abs() <= 1e-5 * x.abs().max(y.abs()) + 1e-6
+        (x - y).abs() <= 1e-5 * x.abs().max(y.abs()) + 1e-3 * scale + 1e-6
     })
 }
 
@@ -396,7 +399,7 @@ impl Engine for ExecEngine {
                 vec!["probe:captured_by_value", "probe:by_value_refused", "probe:ran_in_place", "probe:twin_compared", "probe:if_program", "probe:loop_program", "probe:zero_trip_loop", "probe:reference_ok"],
             ),
             _ => (
-                "Seeded histories of 3-8 runs on one loaded model with varying inputs, output sets, strategies, thread counts and owned/borrowed inputs, plus injected failing runs (an input with a wrong rank in the middle of the history). Monitors: borrowed input buffers are byte-identical after every run; every named constant requested as an output at the start and at the end of the history is bit-identical; the first run repeated at the end (one worker) is bit-identical; two consecutive identical one-worker runs are bit-identical. Pairs of identical runs on 2/4 workers are compared bitwise too but reported as a statistical probe only. Non-trivial = the history contains at least one successful run with a non-default strategy; distinct = hash of the explicit case.".into(),
+                "Seeded histories of 3-8 runs on one loaded model with varying inputs, output sets, strategies, thread counts and owned/borrowed inputs, plus injected failing runs (an input with a wrong rank in the middle of the history). Monitors: borrowed input buffers are byte-identical after every run; every named constant requested as an output at the start and at the end of the history is bit-identical; the first run repeated at the end (one worker) is bit-identical; two consecutive identical one-worker runs (a quarter of the steps repeat their predecessor; inputs are rebuilt for every step, so their addresses and alignment differ) are bit-identical; every step equals the same call on a freshly loaded model; steps may feed an intermediate value as an extra input (a different plan key). Pairs of identical runs on 2/4 workers are compared bitwise too but reported as a statistical probe only. Non-trivial = the history contains at least one successful run with a non-default strategy; distinct = hash of the explicit case.".into(),
                 "exploration",
                 vec!["probe:history_runs", "probe:bad_input_run", "probe:constants_compared", "probe:borrowed_inputs_checked", "probe:repeat_pair_compared", "probe:ran_in_place", "probe:reference_ok"],
             ),
@@ -432,6 +435,14 @@ impl Engine for ExecEngine {
         if self.property == "C25" {
             let hl = r.urange(3, 8);
             for i in 0..hl {
+                // "twice with the same inputs": repeat the previous run exactly
+                if i > 0 && r.chance(1, 4) {
+                    if let Some(HistStep::Run { .. }) = history.last() {
+                        let again = history.last().unwrap().clone();
+                        history.push(again);
+                        continue;
+                    }
+                }
                 if i > 0 && r.chance(1, 6) {
                     history.push(HistStep::BadInput { cfg: random_cfg(&mut r, n_in) });
                     continue;
@@ -884,7 +895,7 @@ impl Engine for ExecEngine {
             }
         }
 
-        Outcome { violation, nontrivial, steps: executions, trace_hash: mix(&trace), executions }
+        Outcome { violation, nontrivial, steps: executions, trace_hash: mix(&trace), executions, ..Default::default() }
     }
 
     fn shrink(&self, case: &ExecCase) -> Vec<ExecCase> {
